@@ -99,6 +99,33 @@ Theorem C17_insert_keeps_others :
 Proof. exact Proofs.ParamEdit.insert_keeps_others. Qed.
 Print Assumptions C17_insert_keeps_valid.
 
+(** ... and at TEXT level, where the first parameter is a starred one: from the byte offset of
+    its name the code walks back to the first star.  For every document
+    [pre ++ stars ++ gap ++ rest] with [stars] a non-empty run of [*], [gap] any run of ASCII
+    white space (blanks, tabs, line breaks) and [pre] not ending in a star, the walk lands on
+    the first star exactly - not between the stars, not between star and name, not on an
+    earlier line *)
+Theorem C17_insertion_lands_on_the_first_star :
+  forall pre stars gap rest : list N,
+    stars <> [] -> Forall (fun b => b = star_b) stars -> Forall (fun b => ws_b b = true) gap ->
+    match rev pre with [] => True | b :: _ => b <> star_b end ->
+    star_start (pre ++ stars ++ gap ++ rest) (List.length (pre ++ stars ++ gap)) = List.length pre.
+Proof. exact Proofs.ParamEdit.star_start_lands_on_the_first_star. Qed.
+Print Assumptions C17_insertion_lands_on_the_first_star.
+
+(** the walk before fix 7459f13 (stars and spaces only) stops at a tab in the gap; the seeded
+    changes S89 ([rfind('*')]: between the two stars) and S102 (back over line breaks: into a
+    comment on the line above) miss it too *)
+Theorem C17_star_walk_old_refuted :
+  star_start_old Proofs.ParamEdit.sig_tab 3 = 3%nat /\ star_start Proofs.ParamEdit.sig_tab 3 = 1%nat.
+Proof. exact Proofs.ParamEdit.star_start_old_refuted. Qed.
+Theorem C17_star_walk_rfind_refuted :
+  rfind_star Proofs.ParamEdit.sig_kw 3 = 2%nat /\ star_start Proofs.ParamEdit.sig_kw 3 = 1%nat.
+Proof. exact Proofs.ParamEdit.star_start_rfind_refuted. Qed.
+Theorem C17_star_walk_s102_refuted :
+  star_start_s102 Proofs.ParamEdit.sig_ml 6 = 3%nat /\ star_start Proofs.ParamEdit.sig_ml 6 = 5%nat.
+Proof. exact Proofs.ParamEdit.star_start_s102_refuted. Qed.
+
 (** what repair ad2306c changed: appending at the end breaks a list that has defaults *)
 Lemma C17_insert_at_end_refuted :
   valid_sig [(PosD, "a")] = true /\ valid_sig (insert_at_end "db" [(PosD, "a")]) = false
